@@ -144,3 +144,11 @@ Theorem C16_decimal_of_int_is_the_int :
   forall z, exists q, num_of (dec_of_int z) = Some (NumFin q) /\ QArith_base.Qeq q (QArith_base.inject_Z z).
 Proof. exact dec_of_int_num. Qed.
 Print Assumptions C16_decimal_of_int_is_the_int.
+
+(* the other spellings the constructor documents read the same for every value: 32 digits without dashes,
+   and the canonical text in braces *)
+Theorem C16_uuid_other_forms :
+  forall n, (0 <= n < 2 ^ 128)%Z ->
+    uuid_parse (to_hex 32 n) = Some n /\ uuid_parse (123 :: uuid_str n ++ [125])%Z = Some n.
+Proof. intros n Hn. split; [exact (uuid_hex_roundtrip n Hn) | exact (uuid_braced_roundtrip n Hn)]. Qed.
+Print Assumptions C16_uuid_other_forms.
